@@ -47,16 +47,16 @@ type wPart struct {
 
 type wAddr struct {
 	Header string      `json:"header"`
-	Value  string      `json:"value"`
+	Value  []byte      `json:"value"`
 	Err    string      `json:"err,omitempty"`
 	List   [][2]string `json:"list"` // name, address
 }
 
 type wRes struct {
 	Err       string     `json:"err,omitempty"` // NewParsedMessage returned an error
-	Body      string     `json:"body"`
-	Structure string     `json:"structure"`
-	Envelope  string     `json:"envelope"`
+	Body      []byte     `json:"body"`          // []byte: JSON would replace octets that are not UTF-8
+	Structure []byte     `json:"structure"`
+	Envelope  []byte     `json:"envelope"`
 	Sections  []wSection `json:"sections"`
 	WalkErr   string     `json:"walk_err,omitempty"`
 	Walked    int        `json:"walked"`
@@ -105,7 +105,7 @@ func analyse(req *wReq) *wRes {
 			res.Err = err.Error()
 			return
 		}
-		res.Body, res.Structure, res.Envelope = pm.Body, pm.Structure, pm.Envelope
+		res.Body, res.Structure, res.Envelope = []byte(pm.Body), []byte(pm.Structure), []byte(pm.Envelope)
 	})
 	var root *rfc822.Section
 	step(res, "rfc822.Parse", func() { root = rfc822.Parse(msg) })
@@ -174,7 +174,7 @@ func analyse(req *wReq) *wRes {
 				if !ok {
 					continue
 				}
-				wa := wAddr{Header: name, Value: v}
+				wa := wAddr{Header: name, Value: []byte(v)}
 				if len(wa.Value) > 200 {
 					wa.Value = wa.Value[:200]
 				}
